@@ -294,5 +294,6 @@ def run(ctx):
     fbd = ctx.fb("default")
     c06.check_recompute(sub, fbd)
     c06.check_complete_writes(sub, fbd, flags=False)
+    c06.check_delegation(sub, fbd)        # ... and the persistent adapter hands every write / deletion to pmtree, unconditionally
     for r in sub.results:
         (ctx.ok if r.status == "ok" else ctx.fail)("R02-5", r.instance, r.reason, r.loc)
